@@ -26,11 +26,15 @@ CHECKS = {
         text='Collection.tla states what C06 requires as a function of the abstract collection/group state; TLC enumerates every '
              'history to a depth bound (append, remove, re-append, new/remove group, set state/label/colour, merge, clear, '
              'session save+restore, hub delay blocks) and random deep walks; each is executed on a real DataCollection and the '
-             'projection (dc.data, subset_groups, d.subsets, g.subsets, masks, labels, colours) compared after every step.',
+             'projection (dc.data, subset_groups, d.subsets, g.subsets, masks, labels, colours) compared after every step. '
+             'In the other direction the DataCollections of the repository\'s own tests are recorded by an external tracer (every '
+             'append/remove/new_subset_group/remove_subset_group with the membership projected after the call, session restores '
+             'observed) and validated by TLC against Trace_Collection.tla, which reuses Collection.tla and requires the C06 membership '
+             'after every call; seven kinds of impossible trace must be rejected on every run.',
         note='Bounded: 3 datasets + merge results, <=4 groups, depth 6-7 exhaustive, 25-40 random. Membership is compared when no '
              'hub delay block is open; datasets outside the collection are unconstrained. Trusted: TLC, value parser, '
              'harness/adapters/collection.py.',
-        technique='TLA+ spec + TLC; behaviour replay into real DataCollection (spec->code conformance)',
+        technique='TLA+ spec + TLC; behaviour replay into real DataCollection (spec->code) and TLC trace validation of recorded executions (code->spec)',
         design='7/C06'),
     'C13': dict(
         text='Commands.tla (on top of Collection.tla) defines undo as restoring the snapshot taken before the command and redo '
